@@ -366,7 +366,7 @@ def canon_events(canon):
 # tests).  The third unit is used in the thorough tier only.
 SESSION_UNITS = [{"prog": [{"k": "set", "a": [[2, 1]]}, {"k": "out", "a": [[2, 1], []]}], "deps": 2},
                  {"prog": [{"k": "out", "a": [[3, 1, 2], [2, 1]]}, {"k": "macro", "a": [[2, 1, 3]]}], "deps": 5},
-                 {"prog": [{"k": "if", "a": [[[2], [3]]]}, {"k": "include", "a": []}], "deps": 0}]
+                 {"prog": [{"k": "if", "a": [[2], [3]]}, {"k": "include", "a": []}], "deps": 0}]
 SESSION_SWITCHES = [{"copy": True, "reset": True}, {"copy": False, "reset": True}, {"copy": True, "reset": False}]
 IMPORT_LINE = "from jinja2.runtime import "
 
@@ -732,7 +732,10 @@ def replay(ck, rec):
                  if k in ("exported", "async_exported")}
         r = run_session_tlc("replay", lists, len(c["session"]), len(c["units"]))
         ck.add_tlc(r, "CompileSession replay")
-        sessions = [b for b in session_records(r)[0] if b["session"] == c["session"]]
+        # (a byte difference is one between two sessions of the same length: both are replayed)
+        wanted = [c["session"]] + ([c["other"]["session"]] if len(c.get("other", {}).get("session", [])) == len(c["session"]) else [])
+        sessions = [b for b in session_records(r)[0] if b["session"] in wanted]
+        sessions.sort(key=lambda b: wanted.index(b["session"]), reverse=True)
         if not sessions:
             raise core.MachineryError("replay: TLC did not produce the recorded session")
         res = run_compile_jobs(seeds[:1], sessions, c["units"], [], "replay")
